@@ -17,11 +17,24 @@
   and "exactly its debt" for multi-deposit seizures (F2).
 -/
 import KavaVerif.Proofs.CdpExample
+import KavaVerif.Generated.CdpFacts
 set_option linter.unusedSimpArgs false
 set_option linter.unusedVariables false
 
 namespace KV.Cdp
 open KV
+
+/-! ### source tables (regenerated from /repo on every run) -/
+
+/-- The comparison shapes and the set of gated functions the model transcribes are the ones in the source:
+    `ValidateCollateralizationRatio` and `WithdrawCollateral` refuse on `ratio.LT(L)` (model: `r.m < L.m → err`),
+    `ValidateLiquidation` refuses on `ratio.GTE(L)` (model: `r.m ≥ L.m → err`), and exactly `AddCdp`,
+    `DepositCollateral`, `WithdrawCollateral` call `ValidateCollateral` (the model's `validateCollateral`;
+    `AddPrincipal` does not — see `C05_feed_gate_draw_counterexample`).  A source edit that changes one of
+    these regenerates the table and re-opens this obligation. -/
+theorem C05_source_gate_table :
+    KV.Gen.cdpUserGateRefuses = "LT" ∧ KV.Gen.cdpWithdrawGateRefuses = "LT" ∧ KV.Gen.cdpKeeperGateRefuses = "GTE" ∧
+    KV.Gen.cdpFeedGateCallers = ["AddCdp", "DepositCollateral", "WithdrawCollateral"] := by decide
 
 /-! ### user gate -/
 
